@@ -16,7 +16,8 @@ from .c17 import gen_schedule
 
 THEOREMS = ["C18_lock_released_at_exit", "C18_others_proceed", "C18_single_version", "C18_never_mixed",
             "C18_undisturbed_fetch_completes", "C18_fetch_examples", "C18_lock_leak_refuted", "C18_lock_leak_repaired",
-            "C18_acknowledgements_change_nothing", "C18_only_fragments_are_stored"]
+            "C18_acknowledgements_change_nothing", "C18_only_fragments_are_stored",
+            "C18_forced_fetch_is_current", "C18_cache_invariant", "C18_early_assignment_refuted"]
 
 PRELUDE = ("From Coq Require Import List Bool Arith.\nFrom RV Require Import M_Transfer.\nImport ListNotations.\n"
            "Set Printing Width 1000000.\nSet Printing Depth 1000000.\n"
